@@ -7,7 +7,7 @@
 #   property commit tier verdict(exit code / conflict / nobuild) violation-lines first-violation-message
 set -u
 id=$1; c=$2; tier=${3:-quick}
-wt=/tmp/rv-$id-$c
+wt=/tmp/rv-$id-$(echo $c | tr "," "_")
 out=/verif/sensitivity; mkdir -p $out
 export GOPROXY=off GOSUMDB=off GOTOOLCHAIN=local
 git -C /repo worktree remove --force $wt 2>/dev/null
